@@ -270,7 +270,8 @@ def corruptions(m, spec, v, nspec, rng):
         else:
             if c.get('extra'):
                 continue
-            newk = rng.choice(['verif_unknown', 'zzz', 'extra_thing'])
+            newk = rng.choice(['verif_unknown', 'zzz', 'extra_thing', 'self',
+                               'cls', 'args'])
             if newk in keys:
                 continue
             knode = N.s_str(newk)
